@@ -47,7 +47,7 @@ def make_policy(cfg: dict, sids: List[str], rng: random.Random) -> vloop.Policy:
     name = cfg.get("policy", "random")
     if name == "random":
         return vloop.RandomPolicy(rng, cfg.get("batch_p", 0.0))
-    if name == "fifo":
+    if name in ("fifo", "atomic"):
         return vloop.FifoPolicy()
     if name == "lifo":
         return vloop.LifoPolicy()
